@@ -1,4 +1,4 @@
 ---- MODULE ConcRouterTraceMC ----
 EXTENDS ConcRouterTrace
-NamesABC == {"a", "b", "c"}
+NamesABC == {"a", "b", "c", "ab"}
 ====
